@@ -216,7 +216,7 @@ def exhaustive(kind, limits, gens_list, lens, length):
 
 def generate(prop, tier, seed, scale=1):
     rng = random.Random("%s-%s" % (prop, seed))
-    ncases = (1500 if tier == "quick" else 40000) * scale
+    ncases = (1500 if tier == "quick" else 12000) * scale
     cases = []
     for i in range(ncases):
         kind = "counted" if i % 2 else "maxsize"
@@ -235,12 +235,18 @@ def generate(prop, tier, seed, scale=1):
         gens = rng.choice([0, 1, 2, 3])
         cases.append(history(rng, "o%d" % i, kind, limit, gens, rng.randint(2, 16), 0.2, off_domain=True))
     yield "generated off-domain", cases
+    # exhaustive spaces: every history of the given length over write(len) / restart (all prefixes are
+    # checked on the way).  The harness works on real files (~0.3-0.5 ms per event on this disk), which bounds
+    # the thorough space: the full product limits 8..24 x lengths 1..6 x length 9 is out of reach.
     if tier == "quick":
-        yield "exhaustive counted limit 1..3 gens 2..3 len 7", exhaustive("counted", [1, 2, 3], [2, 3], [1], 7)
+        yield "exhaustive counted limit 1..3 gens 1..3 len 7", exhaustive("counted", [1, 2, 3], [1, 2, 3], [1], 7)
         yield "exhaustive maxsize limit 8,10 gens 2..3 lens 1,3,6 len 5", exhaustive("maxsize", [8, 10], [2, 3], [1, 3, 6], 5)
     else:
-        yield "exhaustive counted limit 1..4 gens 2..3 lens 1,6 len 9", exhaustive("counted", [1, 2, 3, 4], [2, 3], [1, 6], 9)
-        yield ("exhaustive maxsize limit 8..24 gens 2..3 lens 1..6 len 4",
-               exhaustive("maxsize", list(range(8, 25)), [2, 3], [1, 2, 3, 4, 5, 6], 4))
-        yield ("exhaustive maxsize limit 8,9,12,16,24 gens 2..3 lens 1,2,3,6 len 7",
-               exhaustive("maxsize", [8, 9, 12, 16, 24], [2, 3], [1, 2, 3, 6], 7))
+        yield "exhaustive counted limit 1..4 gens 2..3 len 9", exhaustive("counted", [1, 2, 3, 4], [2, 3], [1], 9)
+        yield "exhaustive counted limit 1..4 gens 1..3 lens 1,6 len 7", exhaustive("counted", [1, 2, 3, 4], [1, 2, 3], [1, 6], 7)
+        yield ("exhaustive maxsize limit 8..24 gens 2..3 lens 1..6 len 3",
+               exhaustive("maxsize", list(range(8, 25)), [2, 3], [1, 2, 3, 4, 5, 6], 3))
+        yield ("exhaustive maxsize limit 8,9,12 gens 2..3 lens 1,3,6 len 6",
+               exhaustive("maxsize", [8, 9, 12], [2, 3], [1, 3, 6], 6))
+        yield ("exhaustive maxsize limit 8 gens 2..3 lens 1,3,6 len 7",
+               exhaustive("maxsize", [8], [2, 3], [1, 3, 6], 7))
